@@ -117,6 +117,58 @@ Equation(e, pkKey, j) == PairLeft(e) = PairRight(pkKey, j)
 
 Pair(a, b) == ModR(a * b)
 
+(* -------------------------------------------------------------------------
+   Message structure.  H is a hash to the curve: injective on byte strings as far
+   as anyone can tell, so Sign(sk, m1) verifies for m2 exactly when m1 = m2 as
+   byte strings -- whatever their lengths, however similar they are.  The lattice
+   below pairs messages that differ while sharing structure an implementation
+   might key on: leading zero bytes, a common 32-byte head or tail, one being a
+   prefix or suffix of the other, a single differing byte. *)
+MsgLens == {0, 1, 31, 32, 33, 64, 65}
+
+(* salt-dependent non-zero filler bytes *)
+Base(salt, n) == [i \in 1..n |-> ((salt * 31 + i * 7) % 255) + 1]
+Zeros(n) == [i \in 1..n |-> 0]
+OtherByte(b) == (b % 255) + 1
+Flip(m, pos) == [m EXCEPT ![pos] = OtherByte(m[pos])]
+FirstN(m, k) == SubSeq(m, 1, k)
+LastN(m, k) == SubSeq(m, Len(m) - k + 1, Len(m))
+
+MsgPair(rel, salt, m1, m2) == [rel |-> rel, salt |-> salt, m1 |-> m1, m2 |-> m2]
+
+MsgPairs ==
+  UNION {
+    {MsgPair("leadZero", 100 + n, Base(100 + n, n), Zeros(1) \o Base(100 + n, n)) : n \in {0, 1, 3, 30, 31, 32, 63, 64}},
+    {MsgPair("leadZeros2", 200 + n, Base(200 + n, n), Zeros(2) \o Base(200 + n, n)) : n \in {0, 1, 3, 30}},
+    {MsgPair("zeroPadTo32", 300 + n, Base(300 + n, n), Zeros(32 - n) \o Base(300 + n, n)) : n \in {0, 1, 3, 31}},
+    {MsgPair("sameLast32", 400 + n, Base(400 + n, n), Flip(Base(400 + n, n), 1)) : n \in {33, 64, 65}},
+    {MsgPair("sameFirst32", 500 + n, Base(500 + n, n), Flip(Base(500 + n, n), n)) : n \in {33, 64, 65}},
+    {MsgPair("prefix", 600 + 10 * nk[1] + nk[2], Base(600 + nk[1], nk[1]), FirstN(Base(600 + nk[1], nk[1]), nk[2]))
+        : nk \in {<<33, 32>>, <<64, 32>>, <<65, 64>>, <<32, 31>>, <<1, 0>>}},
+    {MsgPair("suffix", 700 + 10 * nk[1] + nk[2], Base(700 + nk[1], nk[1]), LastN(Base(700 + nk[1], nk[1]), nk[2]))
+        : nk \in {<<33, 32>>, <<64, 32>>, <<65, 33>>, <<65, 32>>, <<32, 31>>, <<1, 0>>}},
+    {MsgPair("diffByte", 800 + 100 * np[2] + np[1], Base(800 + np[1], np[1]), Flip(Base(800 + np[1], np[1]), np[2]))
+        : np \in {<<1, 1>>, <<31, 1>>, <<31, 31>>, <<32, 1>>, <<32, 32>>, <<33, 1>>, <<33, 33>>, <<64, 1>>, <<64, 33>>, <<64, 64>>, <<65, 33>>, <<65, 65>>}}
+  }
+
+(* a pair is replayed in both orders: which of the two messages the process meets first *)
+MsgCases == {[pair |-> pr, order |-> o] : pr \in MsgPairs, o \in {"fwd", "rev"}}
+
+(* expected verdict of Verify(pk, mv, Sign(sk, ms)) *)
+ExpectedMsg(ms, mv) == ms = mv
+
+(* the lattice is what it claims to be *)
+MsgLatticeOK ==
+  \A pr \in MsgPairs :
+    /\ pr.m1 # pr.m2
+    /\ (pr.rel = "sameLast32" => Len(pr.m1) > 32 /\ Len(pr.m1) = Len(pr.m2) /\ LastN(pr.m1, 32) = LastN(pr.m2, 32))
+    /\ (pr.rel = "sameFirst32" => Len(pr.m1) > 32 /\ Len(pr.m1) = Len(pr.m2) /\ FirstN(pr.m1, 32) = FirstN(pr.m2, 32))
+    /\ (pr.rel = "suffix" => LastN(pr.m1, Len(pr.m2)) = pr.m2)
+    /\ (pr.rel = "prefix" => FirstN(pr.m1, Len(pr.m2)) = pr.m2)
+    /\ (pr.rel = "zeroPadTo32" => Len(pr.m2) = 32)
+    /\ (pr.rel = "diffByte" => Len(pr.m1) = Len(pr.m2) /\ Cardinality({i \in 1..Len(pr.m1) : pr.m1[i] # pr.m2[i]}) = 1)
+MsgLensCovered == MsgLens \subseteq ({Len(pr.m1) : pr \in MsgPairs} \cup {Len(pr.m2) : pr \in MsgPairs})
+
 VARIABLE c
 vars == <<c>>
 
@@ -150,4 +202,5 @@ GenericAssignment ==
   /\ \A j \in Msgs : HVal(j) # 0
 
 ASSUME NK >= 2 /\ NM >= 2
+ASSUME MsgLatticeOK /\ MsgLensCovered
 =============================================================================
